@@ -3,13 +3,14 @@ package main
 // Obligation discharge: SMT-LIB script generation, solver race, result parsing.
 
 import (
-	"sort"
 	"bytes"
 	"context"
 	"fmt"
+	"go/types"
 	"os"
 	"os/exec"
 	"path/filepath"
+	"sort"
 	"strings"
 	"sync"
 	"time"
@@ -177,6 +178,27 @@ func (o *Obligation) script(eng *Engine, withModel bool) string {
 			}
 		}
 	}
+	// interface assertions: for every dynamic type registered so far, whether it implements the
+	// asserted interface is decided by the Go type checker (ground facts)
+	{
+		var preds []string
+		for n := range used {
+			if strings.HasPrefix(n, "implements.") && implIfaces[n] != nil {
+				preds = append(preds, n)
+			}
+		}
+		sort.Strings(preds)
+		var ids []int64
+		for id := range typeTagTypes {
+			ids = append(ids, id)
+		}
+		sort.Slice(ids, func(i, j int) bool { return ids[i] < ids[j] })
+		for _, pn := range preds {
+			for _, id := range ids {
+				asserts = append(asserts, Eq(App(pn, SBool, Num(id)), BoolT(types.Implements(typeTagTypes[id], implIfaces[pn]))))
+			}
+		}
+	}
 	// heap well-typedness for byte storage: every version of the stream-data ghost map and of the
 	// []byte backing-array map, and every element array created for them, holds values in 0..255
 	{
@@ -270,11 +292,11 @@ func runSolver(s solverCfg, file string, timeoutSec int) (status string, out str
 }
 
 type dischargeOpts struct {
-	outDir   string
-	timeout  int
+	outDir     string
+	timeout    int
 	allSolvers bool
-	jobs     int
-	seed     int
+	jobs       int
+	seed       int
 }
 
 // discharge runs the solvers on every obligation (in parallel) and fills in the results.
@@ -455,3 +477,6 @@ func isByteStoreSym(n string) bool {
 	}
 	return false
 }
+
+// implIfaces: interface type behind each implements.<I> predicate (see execTypeAssert).
+var implIfaces = map[string]*types.Interface{}
